@@ -231,6 +231,24 @@ func init() {
 			"concurrent use of one context and state the application shares on purpose are outside",
 		},
 	}
+	c06all := rangeInts(0, 18)
+	for _, k := range []int{0, 3, 4, 5, 9, 11} {
+		c06all = append(c06all, 100+k)
+	}
+	props["C06"] = PropSpec{
+		ID: "C06",
+		Runs: []HarnessRun{
+			{Rel: ".", Dir: "fiber", Entry: "VH_C06_immutable", Cases: tierCases(c06all, c06all), Reach: []string{"checked"}, MaxPaths: 100000},
+		},
+		Bounds: map[string]string{
+			"quick":    "18 accessors (Params, generic Params, Path, OriginalURL, Protocol, Query, Queries, Get, GetReqHeaders, Cookies, Host, Hostname, Body, Body with an unsupported Content-Encoding, BodyRaw, BaseURL, Method, Route().Path) with Immutable on: request 1 has symbolic parameter/query/header/cookie/body tokens, then a second fully symbolic request is served on the same fasthttp.RequestCtx and pooled context and the kept value must still equal what request 1 contained; 6 accessors with Immutable off (correct inside the handler)",
+			"thorough": "same as quick",
+		},
+		Assumptions: []string{
+			"tokens are 2-3 bytes over [A-Za-z0-9_-] so that no escaping/normalisation applies; the second request has the same token lengths (it overwrites the same buffer positions)",
+			"string fields filled by Bind() into structs (reflection decoders), IP/IPs, FormValue/multipart are outside",
+		},
+	}
 	props["SMOKEFAIL"] = PropSpec{
 		ID: "SMOKEFAIL",
 		Runs: []HarnessRun{
